@@ -343,6 +343,17 @@ def rule_c(ctx, cr):
               "the DATA read pointer is rewound when the data segment is rebuilt",
               "Link::clear empties the data segment but keeps data_pos: after an edit a direct "
               "READ / GOTO continues from the old position inside the NEW program's DATA")
+    # compile diagnostics of the replaced program (and of the last direct line) are dropped
+    pc_ = cr.need_fn("mach::program::Program::clear")
+    ctx.touch(pc_)
+    for fld in ("errors", "indirect_errors"):
+        st = [b for b, s_, v in pc_.field_stores(fld)]
+        ctx.check(bool(st) and not (pc_.reach_set(0, avoid=set(st)) & set(pc_.return_blocks())),
+                  "C04.c", "Program::clear/resets-%s" % fld, pc_.span,
+                  "Program::clear starts the recompile with an empty %s list" % fld,
+                  "Program::clear keeps %s: the compile errors of the last direct line (or of the "
+                  "old program) are taken over as the new program's errors, so RUN refuses a "
+                  "valid listing with a stale diagnostic" % fld)
     # pc / entry_address / tr are re-seated from link()'s result on every call
     link = f.calls_to("mach::program::Program::link")
     ctx.check(len(link) == 1, "C04.c", "enter_direct/link", f.span, "one call to Program::link")
